@@ -297,6 +297,14 @@ def _main2(engine, prop, args, seed, jobs):
             if k in seen_classes:
                 continue
             seen_classes.add(k)
+            known = core.match_finding(findings, v)
+            if known is not None:
+                # a recorded finding: named once, never counted towards the violations that end a batch early
+                key = core.canon(known.get("signature"))
+                if key not in printed_known:
+                    printed_known.add(key)
+                    print("KNOWN-FINDING: property=%s %s" % (prop, known.get("what", "")))
+                continue
             pending_reports.append((res.get("trace") or job.args[1], v))
         if kind == "run" and time.monotonic() - t0 > wall_cap:
             return False
